@@ -17,7 +17,6 @@ THEOREMS = [# (1) framework: any document type, any operations, any equivalence
             'layerchange_drops_hidden_refuted', 'setchar_alpha_locked_refuted', 'swap_loses_char_refuted',
             # (4) extension: the full document (palette, fonts, SAUCE, modes) and the remaining undo records
             'xeqv_is_equivalence', 'xeqv_observable', 'lift_sound', 'lift_undoable', 'undo_operations_sound_x', 'x_api_sound', 'x_undo_redo_history',
-            'x_api_sound_everywhere',
             'setfont_before_fix_refuted', 'addfont_before_fix_refuted', 'fontslot_before_fix_refuted', 'resize_sauce_size_before_fix_refuted',
             'rowcol_operations_sound', 'rowcol_cells', 'rowcol_before_fix_refuted', 'scroll_area_ud_sound', 'scroll_area_before_fix_refuted']
 SWEEP_LEMMAS = []
@@ -31,7 +30,7 @@ TRUSTED = ['Coq 8.16.1 kernel + vm_compute (model evaluation); no axioms (Print 
            'parameters the model takes from the implementation through harness probes (c08flip, c08flipf, c08probe): flip-x / flip-y character maps per font, '
            'DOS_DEFAULT_PALETTE, the font behind each ANSI font page / SAUCE font name (as an opaque id = hash of name, size, glyphs), ROTATE_TABLE; '
            'the theorems hold for EVERY value of these parameters',
-           'harness/src/c08.rs (snapshot comparer, history runner, minimiser) and props/c08.py (classification of failures)']
+           'harness/src/c08.rs (snapshot comparer, history runner, minimiser) and props/c08.py (signature of a failing minimised history; no known class is left)']
 UNMODELLED = ['per-operation soundness is NOT proved (stage S only: the oracle runs them on the real code) for: add_floating_layer, '
               'update_layer_properties, paste_sixel, add_font / set_font with an arbitrary BitFont',
               'outside the model (Err 99, skipped by stage C, run by stage S): replace_font_usage / change_font_slot from font page 0 to another page '
@@ -48,7 +47,7 @@ ASSUMPTIONS = ['no i32 overflow in coordinate arithmetic (the model computes in 
 RULE = ('a case is one history: a document (buffer 6x4 .. 80x25; 1..3 layers with full/ragged/empty rows, offsets incl. negative, visible/hidden/locked/'
         'position-locked/alpha-locked/has-alpha flags, optional SAUCE record) and a sequence of public editing operations with in-range and boundary '
         'parameters (plus the controls caret / current layer / mirror mode). Stage S: a fixed list of directed histories (all repaired defects and '
-        'known classes), every history of length 1 and 2 (thorough: also 3) over a fixed alphabet of 70 parameterised operations, and seeded random '
+        'former known classes as regression cases), every history of length 1 and 2 (thorough: also 3) over a fixed alphabet of 70 parameterised operations, and seeded random '
         'histories of length <= 40; operations that do not report Ok are dropped with a restart; the oracle undoes everything (comparing after every '
         'step with the snapshot recorded when the undo stack had that length), redoes everything, walks randomly over undo/redo incl. the no-op ends, '
         'and checks that an edit after undos empties the redo stack. Stage C: documents with explicit raw rows (incl. content outside `size`) and '
@@ -56,7 +55,7 @@ RULE = ('a case is one history: a document (buffer 6x4 .. 80x25; 1..3 layers wit
         'after every step, histories that stop at a failing operation are re-run without it. Stage C, full document (props/c08x.py): the same '
         'documents plus ice / palette / font mode, SAUCE record (matching or not), extra font slots, caret font page; histories over the liftable layer '
         'operations and every operation of Model/DocOps.v (palette, SAUCE, fonts, modes, merge, stamp, paste with explicit cells, anchor, crop, resize with '
-        'layers, mask operations incl. enumerate_selections with a fixed callback, rotate, insert/delete row/column, whole-width scroll) with undo/redo; '
+        'layers, mask operations incl. enumerate_selections with a fixed callback, rotate, insert/delete row/column, scroll up/down over the whole and over part of the layer width) with undo/redo; '
         'compared on layers + palette + font table + SAUCE + modes + selection + mask after every step. Non-trivial = at least two operations applied.')
 
 CODE = {1: 'undo-err', 2: 'undo-panic', 3: 'undo-mismatch', 4: 'redo-err', 5: 'redo-panic', 6: 'redo-mismatch', 7: 'stack-length',
@@ -385,7 +384,7 @@ LEVEL_TEXT = ('Machine-checked proof (Coq, closed under the global context), PAR
               '(justify left/right, center, flip x/y), on the tree with twelve small fix commits. '
               '(3) Extension, FULL document (layer document + palette, font table, SAUCE record, ice/palette/font mode; caret font page and selection mask '
               'as extra state): everything of (2) is lifted, and per-operation soundness + the composed theorem x_undo_redo_history (every interleaving of '
-              'undo/redo after any history of modelled operations; no known class is left, x_api_sound_everywhere) now also cover switch_to_palette, '
+              'undo/redo after any history of modelled operations; no known class is left) now also cover switch_to_palette, '
               'update_sauce_data, switch_to_font_page, set_ansi_font / set_sauce_font, add_ansi_font, remove_font, change_font_slot, replace_font_usage, '
               'set_ice_mode and set_palette_mode (for any conversion), merge_layer_down, anchor_layer, stamp_layer_down, paste_clipboard_data, '
               'resize_buffer with layers, crop, crop_rect, add_selection_to_mask, inverse_selection, enumerate_selections, clear/erase selection and the '
